@@ -51,8 +51,8 @@ PROPS = {
         'assumptions': ['MaxAllowedSectionSize <= 32 MiB so that CidFromReader\'s digest cap never bites (explicit hypothesis of the theorems)'],
     },
     'C11': {
-        'families': [('c11', 150, 2000), ('c12', 40, 200)],
-        'rule': 'generated record multisets (hash codes incl. identity and a 4-byte code, digest widths 0..70, duplicate digests with other offsets / other hash codes, offsets up to 2^63-1) loaded in a random permutation into both on-disk codecs; WriteTo byte count vs bytes written, bytes compared with the identity-order load when no digest is shared, ReadFrom of the bytes, then GetAll/GetFirst for every record CID and absent CIDs and ForEach on the re-read index, all compared with model and with the record multiset; distinct = distinct script text; plus the resumption family of C12 at a small count (the flattened index of a session that was interrupted and resumed is part of the final file compared byte for byte)',
+        'families': [('c11', 150, 2000), ('c12', 40, 200), ('c03', 20, 100)],
+        'rule': 'generated record multisets (hash codes incl. identity and a 4-byte code, digest widths 0..70, duplicate digests with other offsets / other hash codes, offsets up to 2^63-1) loaded in a random permutation into both on-disk codecs; WriteTo byte count vs bytes written, bytes compared with the identity-order load when no digest is shared, ReadFrom of the bytes, then GetAll/GetFirst for every record CID and absent CIDs and ForEach on the re-read index, all compared with model and with the record multiset; distinct = distinct script text; plus the resumption family of C12 at a small count (the flattened index of a session that was interrupted and resumed is part of the final file compared byte for byte) and the index-generation family of C03 at a small count (regenerating from the finished payload, through seekable, plain and byte-at-a-time stream readers, answers every lookup as the records of the sections do)',
         'trusted': ['Go sort.Sort instability for equal digests is canonicalised away (offset lists compared sorted)'],
         'assumptions': [],
     },
